@@ -85,13 +85,13 @@ func runC07(tier, replay string) int {
 		runs = append(runs,
 			run{"exhaustive<=2 members, all attrs", core.TLCOpts{Spec: "LayoutGen", CfgText: layoutCfg(2, 1, "all", "{0, 8, 16, 32}", "{999, 0, 12}", "{3}", true), Workers: 8, HeapGB: 8}},
 			run{"f32only<=3 members", core.TLCOpts{Spec: "LayoutGen", CfgText: layoutCfg(3, 1, "f32only", "{0, 16, 32}", "{999, 4}", "{2}", true), Workers: 8, HeapGB: 8}},
-			run{"nested simulation", core.TLCOpts{Spec: "LayoutGen", CfgText: layoutCfg(4, 3, "all", "{0, 8, 16, 32, 64}", "{999, 0, 4, 12, 20}", "{1, 2, 3, 5}", true), Simulate: "num=6000", Depth: 16, Seed: c.Seed}},
+			run{"nested simulation", core.TLCOpts{Spec: "LayoutGen", CfgText: layoutCfg(4, 3, "all", "{0, 8, 16, 32, 64}", "{999, 0, 4, 12, 20}", "{1, 2, 3, 5}", true), Simulate: "num=2500", Depth: 16, Seed: c.Seed}},
 		)
 	}
 	results := make([]*core.TLCResult, len(runs))
 	core.ParMap(len(runs), len(runs), func(i int) {
 		o := runs[i].o
-		o.Timeout = 25 * time.Minute
+		o.Timeout = 50 * time.Minute
 		r, err := c.RunTLC(o)
 		if err != nil {
 			c.BrokenF("TLC: %v", err)
